@@ -108,6 +108,15 @@ def model(root_path, module_path, exclusions=(), regex_exclusions=()) -> Model:
         r.append(t)
         return r
 
+    def readings(t: str):
+        """The names an absolute import may stand for: normally one; both spellings when the name as written is itself
+        an internal module AND resolves relative to module_path's parent (a package named like the root directory:
+        the property says both spellings resolve, not which one wins)."""
+        r = resolutions(t)
+        if len(r) == 2 and (r[1] in internal or r[1].split(".")[0] == root.name):
+            return r
+        return r[:1]
+
     def inside(n: str) -> bool:
         return n == m.mpname or is_ancestor(m.mpname, n)
 
@@ -118,12 +127,14 @@ def model(root_path, module_path, exclusions=(), regex_exclusions=()) -> Model:
         for node in ast.walk(tree):
             if isinstance(node, ast.Import):
                 for al in node.names:
-                    t = resolutions(al.name)[0]
-                    m.statements.append(Stmt(me, "import" + (" as" if al.asname else ""), node.lineno, [t], via_prefix=t != al.name))
+                    ts = readings(al.name)
+                    m.statements.append(Stmt(me, "import" + (" as" if al.asname else ""), node.lineno, list(ts), "ambiguous-root-named-package" if len(ts) > 1 else "", via_prefix=ts[0] != al.name))
             elif isinstance(node, ast.ImportFrom):
                 via = False
+                bases = None
                 if node.level == 0:
-                    base = resolutions(node.module)[0]
+                    bases = readings(node.module)
+                    base = bases[0]
                     via = base != node.module
                     form = "from"
                 else:
@@ -148,6 +159,11 @@ def model(root_path, module_path, exclusions=(), regex_exclusions=()) -> Model:
                         alts, note = [base, cand], "outside-module-path"
                     else:
                         alts, note = [base], "name"
+                    if bases and len(bases) > 1:
+                        # second reading of an ambiguous base: P2.n if scanned, else P2
+                        c2 = f"{bases[1]}.{al.name}"
+                        alts = list(alts) + [c2 if (al.name != "*" and c2 in scanned) else bases[1]]
+                        note = "ambiguous-root-named-package"
                     m.statements.append(Stmt(me, form + (":" + note if note != "name" else ""), node.lineno, alts, note, via))
     return m
 
